@@ -56,6 +56,26 @@ CHECKS = {
                 technique="DFA over interpreted event traces (loops as fixpoints) for the strobe protocol; per-pin polynomial equality for the bus cache invariant; Range trip-count and overflow obligations for the repeat fast path",
                 text="Decided: every word is WR low + bus := word, then WR high; command byte with DC low, DC high before parameters, parameters and pixel words taken from the slice/array in order; per data pin (8 and 16 bit buses) the pin is driven iff the cache is empty or the bit differs, to the bit's level, early return iff the cache equals the value, cache Some(value) only after all pins succeeded and None after any pin failure (inductive step of 'pins show the last value' under arbitrary failures); the all-equal fast path is one full word plus a 1..count*N loop of bare strobes without bus updates, and its count arithmetic cannot overflow.",
                 note="Level 'other': the equality of the latched sequence with the word sequence is reduced to these per-step obligations plus the finite-iterator contract; electrical timing out of scope. Found and fixed: u32 overflow of count*N (commit d3566e8)."),
+    "C01": dict(level="other", design="5/C01",
+                technique="abstract interpretation (affine forms) of the polymorphic window arithmetic per orientation case, decoded through the MIPI MY/MX/MV model and compared with the geometric oracle; bounded Farkas for overflow obligations",
+                text="For each of the 8 orientations the column/page arguments emitted by set_pixels are affine forms whose decoding under the orientation's address mode equals, identically in (lx,ly), offset + mirror(rotate_cw(lx,ly)); both corners share the offsets; set_pixel, fill_solid, fill_contiguous hand exactly their logical coordinates (clipped rectangle corners) to that arithmetic, clipping against (0,0,logical w,h); clear is the trait default; the u16 arithmetic cannot wrap and window ends stay inside the framebuffer under I_init. One polymorphic body covers all models (1x1..65535x65535) and transports.",
+                note="Level 'other': grouping of batched draw_iter pixels into windows is C03 (not decided); 'last colour wins / no other cell changes' relies on the controller model plus C08. Trusted: rustc MIR, interpreter, MIPI decode model, C14, C18, C09, e-g-core intersection/bounding_box contracts."),
+    "C02": dict(level="other", design="5/C02",
+                technique="taint-style sanitiser rule and panic-obligation audit over the interpreted cones of the DrawTarget methods: every value-changing cast / overflow / bounds / unwrap site is an obligation discharged by ranges, bounded Farkas, loop interval invariants and Houdini-style template invariants (P_win)",
+                text="For all 8 orientations and both batch settings, with arbitrary i32 coordinates: no caller-supplied coordinate reaches a u16 cast unchecked, every address window ends inside the framebuffer as seen under the address mode (also for the batched pipeline, through template invariants on the accumulators), and every panic site in the cones of draw_iter / fill_contiguous / fill_solid is discharged (skip products by the stated '< 2^32 points' precondition).",
+                note="Level 'other': 'the in-bounds remainder is drawn exactly as if ...' for batched draw_iter is C03. Errors originate only from interface failures: C12. Found and fixed: unchecked casts in draw_iter, both batch settings (commit 605d72f)."),
+    "C04": dict(level="other", design="5/C04",
+                technique="path-wise abstract interpretation of fill_contiguous (polynomial identities for the stream-index arithmetic) and of the take/skip iterator's transition relation",
+                text="Unclipped rectangles feed the stream directly into take(iw*ih); clipped ones consume exactly (iy-ay)*aw + (ix-ax) colours first on all four guard paths, then take iw and skip aw-iw per row; TakeSkip::next is decided per call (row not exhausted: one colour; exhausted: skip `skip`, yield next, counter := take-1; take=0: None), which by induction is 'colour k on point k'.",
+                note="Level 'other': the induction over calls and early-ending streams are argued, not mechanised. Trusted: core Iterator::nth/take contracts, e-g-core intersection contract. 16-bit-pointer helper variants: thorough tier (msp430 facts)."),
+    "C08": dict(level="other", design="5/C08",
+                technique="DFA over interpreted event traces (loops as fixpoints) for the framing language; entailment of start<=end / end-inside-framebuffer; polynomial identity pixel count == window area",
+                text="Every drawing entry point (8 orientations, both batch settings) emits only groups CASET RASET RAMWR pixels, error paths being prefixes; for the fill methods and set_pixel start <= end and the end is inside the framebuffer; fill_solid's repeat count and fill_contiguous's take limit equal (ex-sx+1)*(ey-sy+1).",
+                note="Level 'other': for batched draw_iter start<=end and block colour count = rows x row length are not decided (C03). Four big-endian bytes per address command: C18."),
+    "C20": dict(level="other", design="5/C20",
+                technique="event counting on interpreted traces (window set-ups per fill, loop depth of SPI writes), capacity constants read from heapless::Vec type arguments",
+                text="Exactly one CASET/RASET/RAMWR per successful fill_solid / fill_contiguous and none in a loop (clear is the default); with batch, draw_iter never falls back to single-pixel bursts and 2 <= row capacity <= block capacity; no SPI write sits in the per-pixel staging loop.",
+                note="Level 'other' (necessary conditions): that adjacent pixels are actually merged and the floor(b/usable)+1 transaction bound are not decided."),
 }
 
 NOT_APPLICABLE = {
